@@ -6,6 +6,21 @@ BASE = json.load(open("/root/.vp/BASELINE.json"))["cmd"] if os.path.exists("/roo
     "cd /repo && /venv/bin/python -m pytest -ra -q -p no:cacheprovider --timeout=900 --continue-on-collection-errors"
 
 CLAIMED = {
+ "C02": dict(
+    technique="static analysis: guard-dominance of certificate returns (truth-table implication), structural equality of the residual's divisor with the reciprocal scaling factor of the returned vectors, documented-field table check, ordered finalisation, propagation through wrappers",
+    text="Static, exhaustive over conelp's certificate branches and their propagation (lp/socp/sdp/op.solve): a certificate status is returned only under `res is not None and res <= feastol` for the residual it reports; that residual is divided by the same quantity whose reciprocal scales the returned vectors, under that quantity's sign test; the other half and the documented fields are None and the fixed objective is +-1; the returned cone vector is symmetrised and its slack recomputed and reported; wrappers test for None before slicing and op.solve copies status and values. It does NOT decide that the scaled vectors numerically satisfy h'z+b'y=-1 or the residual bound.",
+    note="Trusted: CPython ast, sa/pyfront.py implication engine, the documented field table of coneprog.rst as encoded in sa/props/C02.py.",
+    ref="DESIGN.md section 3, C02"),
+ "C03": dict(
+    technique="static analysis: guard-dominance of 'optimal' returns, loop-shape bound, ordered finalisation, block-offset extent algebra, who-may-read rule for P (lower-triangle access only), argument forwarding by resolved call binding",
+    text="Static, exhaustive over coneqp/qp: 'optimal' from the main loop is dominated by the documented stop test on the reported variables, the no-inequality shortcut only under cdim == 0 with computed infeasibility fields; iterations <= maxiters by loop shape; 's' blocks symmetrised and slacks recomputed/reported; block walks advance by what they touch; P is read only through base.symv(uplo 'L'), validation and the KKT factory; qp forwards by name. It does NOT decide the numerical KKT residuals.",
+    note="Trusted: CPython ast, sa/pyfront.py, sa/offsets.py footprints; base.symv/sp symv touch only the selected triangle (C side).",
+    ref="DESIGN.md section 3, C03"),
+ "C04": dict(
+    technique="static analysis: guard-dominance, normaliser pairing (def-use), ordered finalisation, must-evaluate-F-at-returned-x rule, straight-line epigraph stripping in cp, block-offset extent algebra",
+    text="Static, exhaustive over cpl/cp/gp: 'optimal' dominated by the stop test on the reported normalised residuals, each residual divided by its own iteration-0 normaliser; loop bound; sl/zl symmetrised, slacks recomputed/reported; F evaluated and unpacked at the returned x within the iteration with no later write; cp strips the epigraph components on its single path, F_e forms f0 - t on both branches, gp forwards by name; block-offset discipline. It does NOT decide the residual formulas or cross-solver agreement.",
+    note="Trusted: CPython ast, sa/pyfront.py, sa/offsets.py; callbacks obey their documented contracts.",
+    ref="DESIGN.md section 3, C04"),
  "C01": dict(
     technique="static analysis: guard-dominance of 'optimal' returns by truth-table implication over path conditions, reported==tested binding through the result dictionary, ordered result-finalisation (typestate), block-offset extent algebra, definite assignment",
     text="Static, exhaustive over conelp/lp/socp/sdp: decides structural necessary conditions of C01 - each 'optimal' return is dominated by the documented stop test on exactly the variables the result reports (start-up shortcut only under its exact justifying conditions incl. kktreg is None), tolerances bound once from options, iterations <= maxiters by loop shape, results rescaled by 1/tau then symmetrised and slacks recomputed and reported, socp/sdp pieces are an exact partition of s and z behind the None test, every block walk advances its offset by exactly what it touches, external-solver branches resolve and assign everything they report, cone-space vectors normed with the cone inner product. It does NOT decide that the residual/gap formulas are numerically right nor convergence.",
